@@ -9,7 +9,8 @@
 (*   "apply"   ApplyTypeAnnotationsVisitor visits one slot per step                             *)
 (*   "done"                                                                                     *)
 (* AsCoded = FALSE is the rule table the property asks for; AsCoded = TRUE models the code as   *)
-(* written (the variable branch of pass 1 never fires) and violates NoBareAnyNeverInv.          *)
+(* written (the variable branch of pass 1 never fires; tuple / chained targets of a class body  *)
+(* are declared at module level) and violates NoBareAnyNeverInv and NoStrayInv.                 *)
 EXTENDS MergePyiOps, TLC, Json
 
 CONSTANTS MaxSlots, MaxParams, MaxVars,
@@ -20,13 +21,13 @@ CONSTANTS MaxSlots, MaxParams, MaxVars,
           AsCoded,
           Mode         \* "check" | "tables" (export every table at the end of the build phase)
 
-VARIABLES t, phase, fst, res, k
+VARIABLES t, phase, fst, res, stray, k
 
-vars == <<t, phase, fst, res, k>>
+vars == <<t, phase, fst, res, stray, k>>
 
 Empty == [slots |-> <<>>, fl |-> "plain", am |-> TRUE]
 
-Init == t = Empty /\ phase = "build" /\ fst = <<>> /\ res = <<>> /\ k = 0
+Init == t = Empty /\ phase = "build" /\ fst = <<>> /\ res = <<>> /\ stray = {} /\ k = 0
 
 HasKind(kd) == \E x \in DOMAIN t.slots : t.slots[x].kind = kd
 NVars == Cardinality({x \in DOMAIN t.slots : t.slots[x].kind \in VarKinds})
@@ -39,7 +40,7 @@ RetOpts ==
      e \in {"none", "T"}, s \in {"none", "T", "U", "Any", "Never"}}
 VarOpts(kd) ==
   {[kind |-> kd, ctx |-> c, ex |-> "none", st |-> s] :
-     c \in (IF kd = "clsvar" THEN VCtx \cap {"assign", "tuple"} ELSE VCtx),
+     c \in (IF kd = "clsvar" THEN VCtx \cap {"assign", "tuple", "multi"} ELSE VCtx),
      s \in {"none", "T", "Any", "Never", "triv", "Lit"}}
   \cup {[kind |-> kd, ctx |-> "annotated", ex |-> "T", st |-> s] : s \in {"none", "T", "U", "Any"}}
 
@@ -56,41 +57,49 @@ AddFunc(fl, am, ps, r) ==
   /\ am \/ fl = "plain"
   /\ (Len(ps) = 2 /\ ~Rich2) => (fl = "plain" /\ am /\ \A x \in DOMAIN ps : ps[x].ctx = "plain")
   /\ t' = [slots |-> ps \o <<r>>, fl |-> fl, am |-> am]
-  /\ UNCHANGED <<phase, fst, res, k>>
+  /\ UNCHANGED <<phase, fst, res, stray, k>>
 
 AddVar(s) ==
   /\ phase = "build"
   /\ Len(t.slots) < MaxSlots /\ NVars < MaxVars
   /\ s.kind = "modvar" => ~HasKind("clsvar")
   /\ t' = [t EXCEPT !.slots = Append(@, s)]
-  /\ UNCHANGED <<phase, fst, res, k>>
+  /\ UNCHANGED <<phase, fst, res, stray, k>>
 
 Freeze ==
   /\ phase = "build" /\ t.slots # <<>>
   /\ phase' = "pass1" /\ fst' = [x \in DOMAIN t.slots |-> t.slots[x].st]
-  /\ UNCHANGED <<t, res, k>>
+  /\ UNCHANGED <<t, res, stray, k>>
 
 Pass1 ==
   /\ phase = "pass1"
   /\ fst' = [x \in DOMAIN t.slots |-> AfterAnyNever(AsCoded, t.slots[x])]
-  /\ phase' = "pass2" /\ UNCHANGED <<t, res, k>>
+  /\ phase' = "pass2" /\ UNCHANGED <<t, res, stray, k>>
 
 Pass2 ==
   /\ phase = "pass2"
   /\ fst' = [x \in DOMAIN t.slots |-> AfterTrivial(t.slots[x], fst[x])]
-  /\ phase' = "apply" /\ k' = 1 /\ UNCHANGED <<t, res>>
+  /\ phase' = "apply" /\ k' = 1 /\ UNCHANGED <<t, res, stray>>
 
 Apply ==
   /\ phase = "apply"
   /\ IF k <= Len(t.slots)
-       THEN res' = Append(res, ApplySlot(t, fst, k)) /\ k' = k + 1 /\ UNCHANGED phase
-       ELSE phase' = "done" /\ UNCHANGED <<res, k>>
+       THEN /\ res' = Append(res, ApplySlot(AsCoded, t, fst, k))
+            /\ stray' = IF StraySlot(AsCoded, t, fst, k) THEN stray \cup {k} ELSE stray
+            /\ k' = k + 1 /\ UNCHANGED phase
+       ELSE phase' = "done" /\ UNCHANGED <<res, stray, k>>
   /\ UNCHANGED <<t, fst>>
 
+(* the guards are repeated in front of the quantifiers so that TLC does not enumerate the *)
+(* function shapes in states where no function can be added                             *)
+FuncShapes(n) ==
+  {ps \in [1 .. n -> ParamOpts(IF n = 2 /\ ~Rich2 THEN PCtx \cap {"plain"} ELSE PCtx)] : ParamOrderOK(ps)}
 Build ==
-  \/ \E fl \in Fls, am \in BOOLEAN, r \in RetOpts :
-       \E ps \in UNION {[1 .. n -> ParamOpts(PCtx)] : n \in 0 .. MaxParams} : AddFunc(fl, am, ps, r)
-  \/ \E kd \in VarKinds : \E s \in VarOpts(kd) : AddVar(s)
+  \/ /\ phase = "build" /\ t.slots = <<>>
+     /\ \E n \in 0 .. MaxParams : \E ps \in FuncShapes(n) :
+          \E fl \in Fls, am \in BOOLEAN, r \in RetOpts : AddFunc(fl, am, ps, r)
+  \/ /\ phase = "build" /\ Len(t.slots) < MaxSlots /\ NVars < MaxVars
+     /\ \E kd \in VarKinds : \E s \in VarOpts(kd) : AddVar(s)
 
 Next ==
   IF Mode = "tables" THEN Build \/ Freeze
@@ -103,15 +112,18 @@ TypeOK ==
   /\ phase \in {"build", "pass1", "pass2", "apply", "done"}
   /\ Len(t.slots) <= MaxSlots
   /\ Len(res) <= Len(t.slots)
+  /\ stray \subseteq DOMAIN t.slots
 
 (* the passes over the stub only remove annotations *)
 PassesOnlyRemove ==
   phase \in {"pass2", "apply", "done"} => \A x \in DOMAIN fst : fst[x] \in {"none", t.slots[x].st}
 
-StepwiseEqualsRuleTable == phase = "done" => res = Merge(AsCoded, t)
+StepwiseEqualsRuleTable ==
+  phase = "done" => res = Merge(AsCoded, t) /\ stray = Stray(AsCoded, t)
 KeptInv == phase = "done" => Kept(t, res)
 FromStubInv == phase = "done" => FromStub(t, res)
 NoBareAnyNeverInv == phase = "done" => NoBareAnyNever(t, res)
+NoStrayInv == phase = "done" => NoStray(stray)
 AllOrNothingInv == phase = "done" => AllOrNothing(AsCoded, t, res)
 
 ExportInv == (Mode = "tables" /\ phase = "pass1") => PrintT(<<"CASE", ToJson(t)>>)
